@@ -524,7 +524,7 @@ let exec (c : cursor) : outcome =
                   (List.length sends)
                   (String.concat "" (List.map (fun k -> " " ^ kind k) sends))))
   | "UDP" -> Obs "answered 1 running 1 heartbeating 1 shutdown 1"
-  | "DECODE" ->
+  | "DECODE" | "DECODEOK" ->
       let b = next_hex c in
       let _ = parse_tail c in
       (match decode zd b with
@@ -691,7 +691,13 @@ let () =
                    "dead peers outnumber live peers but the round contacted no dead peer"
              | "ROUND" -> Monitor.on_round (next_int mc)
              | "ROUNDSEND" -> Monitor.on_rounds_end (next_int mc)
-             | "HONEST" -> Monitor.next_catchup_honest := true
+             | "HONEST" ->
+                 Monitor.next_catchup_honest := true;
+                 Monitor.next_catchup_source := (try Some (next_int mc) with _ -> None)
+             | "DECODEOK" ->
+                 Monitor.check "C08" (String.length impl >= 2 && String.sub impl 0 2 = "OK")
+                   "a byte string produced by an independent implementation of the documented layout (well-formed message, block payloads of at most 65,535 bytes) was not decoded"
+
              | "HS" -> let a = next_int mc in let b = next_int mc in Monitor.on_hs_begin a b
              | "HSEND" -> let a = next_int mc in let b = next_int mc in Monitor.on_hs_end a b
              | "DELTA" ->
